@@ -39,15 +39,16 @@ TotWits(e, c) ==
   UNION {{[kind |-> <<"total">> \o v, ks |-> {e.toks[i] : i \in 1..Len(e.toks)}, case |-> c] :
             v \in ViolTotal(e.outs[j].ret, e.outs[j].saveret, e.outs[j].pk)} : j \in 1..Len(e.outs)}
 
-ConvWits(e, c) ==
+\* [ws |-> witnesses, amb |-> the reference renderer reads the Markdown differently from the AST]
+ConvJudge(e, c) ==
   LET tot == {[kind |-> <<"total">> \o v, ks |-> {"fid-case"}, case |-> c] : v \in ViolTotal(e.ret, e.saveret, e.pk)}
       ambiguous == JudgeFid(e.ast, cur.opts, e.ref) # {}
       fid == IF e.ret # "ok" \/ e.saveret # "ok" \/ ambiguous THEN {}
              ELSE {[kind |-> <<"fid", w.fld>>, ks |-> w.ks, case |-> c] : w \in JudgeFid(e.ast, cur.opts, e.body)}
       mach == IF e.opts # cur.opts THEN {[kind |-> <<"MACH", "opts">>, ks |-> {}, case |-> c]} ELSE {}
-  IN tot \cup fid \cup mach
+  IN [ws |-> tot \cup fid \cup mach, amb |-> ambiguous]
 
-TInit == l = 1 /\ cur = NewConv(DefaultOpts) /\ wit = {} /\ seen = {} /\ stat = [conv |-> 0, ambiguous |-> 0, raw |-> 0, deviating |-> 0]
+TInit == l = 1 /\ cur = NewConv(DefaultOpts) /\ wit = {} /\ seen = {} /\ stat = [conv |-> 0, ambiguous |-> 0, raw |-> 0, deviating |-> 0, ambcases |-> {}]
 
 TReset == /\ l <= Len(Trace) /\ Trace[l].ev = "reset"
           /\ cur' = NewConv(DefaultOpts) /\ l' = l + 1 /\ UNCHANGED <<wit, seen, stat>>
@@ -58,11 +59,13 @@ TStep == /\ l <= Len(Trace) /\ Trace[l].ev = "step"
                      /\ cur' = Apply(cur, [op |-> "new", opts |-> e.opts])
                      /\ UNCHANGED <<wit, seen, stat>>
                 [] e.op = "conv" ->
-                     LET ws == ConvWits(e, e.case)
-                         amb == JudgeFid(e.ast, cur.opts, e.ref) # {}
+                     LET j == ConvJudge(e, e.case)
+                         ws == j.ws
+                         amb == j.amb
                      IN /\ wit' = AddAll(wit, ws)
                         /\ seen' = seen \cup UNION {Classes(e.ast[i], cur.opts) : i \in 1..Len(e.ast)}
                         /\ stat' = [stat EXCEPT !.conv = @ + 1, !.ambiguous = @ + (IF amb THEN 1 ELSE 0),
+                                                !.ambcases = IF amb /\ Cardinality(@) < 20 THEN @ \cup {e.case} ELSE @,
                                                 !.deviating = @ + (IF ws # {} THEN 1 ELSE 0)]
                         /\ cur' = Apply(cur, [op |-> "conv"])
                 [] OTHER ->
@@ -72,7 +75,7 @@ TStep == /\ l <= Len(Trace) /\ Trace[l].ev = "step"
                         /\ UNCHANGED <<cur, seen>>
          /\ l' = l + 1
 
-Sig(w) == (IF w.kind[1] = "MACH" THEN <<>> ELSE <<"C19">>) \o w.kind \o SetToSeq(w.ks)
+Sig(w) == (IF w.kind[1] = "MACH" THEN <<>> ELSE <<"C19">>) \o w.kind \o <<"|">> \o SetToSeq(w.ks)
 
 TDone == /\ l = Len(Trace) + 1
          /\ ("WZ_STAT" \in DOMAIN IOEnv) =>
